@@ -980,6 +980,19 @@ class Data(object):
         else: #pass on to superclass
             super(Data,self).__setattr__(key,value)
 
+    def __delattr__(self, key):
+        """Convert delattr to delitem on self.__dict__
+
+           object.__delattr__ removes the key from the shadowed .__dict__ odict
+           with the C level dict delete which bypasses odict.__delitem__ and so
+           leaves the key in the odict's ordered key list. Deleting through
+           the odict keeps keys(), items() and values() consistent.
+        """
+        if key in self.__dict__:
+            self.__dict__.__delitem__(key)
+        else: #pass on to superclass
+            super(Data,self).__delattr__(key)
+
     def __repr__(self):
         """
         Representation
